@@ -461,9 +461,13 @@ func (s *Stream) handleFrame(f Frame) (err error) {
 	}
 
 	if err != nil {
+		// An endpoint sends at most one Close frame: if the closing handshake has already been started by us there is
+		// nothing left to send.
+		if s.state == StateActive {
+			// TODO consider flushing the close
+			s.prepareClose(EncodeCloseFramePayload(CloseProtocolError, ""))
+		}
 		s.state = StateClosedByUs
-		// TODO consider flushing the close
-		s.prepareClose(EncodeCloseFramePayload(CloseProtocolError, ""))
 	}
 
 	return err
